@@ -8,11 +8,12 @@ import (
 
 // transformBind transforms wire.Bind to kessoku.Bind.
 func (t *Transformer) transformBind(wb *WireBind, pkg *types.Package) (*KessokuBind, error) {
-	// Unwrap pointer types to get the base named type
-	implType := wb.Implementation
+	// Unwrap pointer types to get the base named type; every level may be spelled through an
+	// alias (type Impl = realImpl)
+	implType := types.Unalias(wb.Implementation)
 	for {
 		if ptr, ok := implType.(*types.Pointer); ok {
-			implType = ptr.Elem()
+			implType = types.Unalias(ptr.Elem())
 		} else {
 			break
 		}
